@@ -51,9 +51,11 @@ package vnet
 //@ func (c Chunk) SourceAddr() (r net.Addr)
 //@   pure
 //@   ensures r != nil && addrStr[ref(r)] == chSrc[ref(c)] && addrNet[ref(r)] == chNet[ref(c)] && validAddr(chSrc[ref(c)])
+//@   ensures typeis(r, *net.UDPAddr) ==> fresh(ptr(r, *net.UDPAddr)) && udpStr(ipStr[base(ptr(r, *net.UDPAddr).IP)], ptr(r, *net.UDPAddr).Port) == chSrc[ref(c)]
 //@ func (c Chunk) DestinationAddr() (r net.Addr)
 //@   pure
 //@   ensures r != nil && addrStr[ref(r)] == chDst[ref(c)] && addrNet[ref(r)] == chNet[ref(c)]
+//@   ensures typeis(r, *net.UDPAddr) ==> fresh(ptr(r, *net.UDPAddr)) && udpStr(ipStr[base(ptr(r, *net.UDPAddr).IP)], ptr(r, *net.UDPAddr).Port) == chDst[ref(c)]
 //@ func (c Chunk) getSourceIP() (r net.IP)
 //@   pure
 //@   ensures ipStr[base(r)] == chSrcIP[ref(c)]
